@@ -379,3 +379,54 @@ func redecodeJob(sp *spec, g *G) job {
 		return c
 	}}
 }
+
+// ---------------------------------------------------------------- 3. the factory, every type code
+
+// registryPhase asks the real factory for every 16-bit type code: what it creates must be exactly what
+// the model's registry (driver R = Gen.Packs.registry, regenerated from the CreatePack switch) says, must
+// declare that same code, and must be a type this harness exercises (a pack type added to the factory
+// without a spec here would otherwise go unexamined on the Go side; in Lean C03Gen.covered_agree /
+// registered_named pick it up).
+func registryPhase(x *runCtx) {
+	model := map[int]string{}
+	if x.env.Driver != "" {
+		outs, err := vh.RunDriver(x.env.Driver, []string{"R"})
+		if err == nil && len(outs) == 1 {
+			for _, e := range strings.Split(outs[0], ",") {
+				if p := strings.Split(e, ":"); len(p) == 2 {
+					c, _ := strconv.Atoi(p[0])
+					model[c] = p[1]
+				}
+			}
+		}
+	}
+	listed := map[int16]bool{}
+	for _, c := range registeredCodes {
+		listed[c] = true
+	}
+	for code := -32768; code <= 32767; code++ {
+		var p pack.Pack
+		oc := guard(func() { p = pack.CreatePack(int16(code)) })
+		x.rep.Evaluations++
+		name := ""
+		if oc.OK() && p != nil && !reflect.ValueOf(p).IsNil() {
+			name = reflect.TypeOf(p).Elem().Name()
+		}
+		if !oc.OK() {
+			x.rep.Fail("property", "CreatePack:panic", fmt.Sprintf("CreatePack(%d) panicked: %s", code, vh.Clip(oc.Panic, 200)), map[string]interface{}{"code": code})
+			continue
+		}
+		if name != "" {
+			x.rep.Count("registry:created")
+			if int(p.GetPackType()) != code {
+				x.rep.Fail("property", name+":type-code-differs", fmt.Sprintf("CreatePack(%d) creates a %s whose GetPackType() is %d: its encoding would decode as another type", code, name, p.GetPackType()), map[string]interface{}{"code": code})
+			}
+			if !listed[int16(code)] || specByName[name] == nil {
+				x.rep.Fail("correspondence", name+":no-harness-spec", fmt.Sprintf("CreatePack(%d) creates a %s, a type the harness has no generator/spec for", code, name), map[string]interface{}{"code": code})
+			}
+		}
+		if len(model) > 0 && model[code] != name {
+			x.rep.Fail("correspondence", "CreatePack:model-registry-differs", fmt.Sprintf("CreatePack(%d): Go creates %q, the regenerated registry says %q", code, name, model[code]), map[string]interface{}{"code": code})
+		}
+	}
+}
